@@ -410,6 +410,10 @@ pub fn switch(
             let height = env.rt.stack.len();
             if push_empty_rows_value(f, kept_args, false, &mut Default::default(), env) {
                 if env.rt.stack.len() == height + sig.outputs() {
+                    // The inverse still needs the selector
+                    if let Some(selector) = copied_selector {
+                        env.push_under(selector);
+                    }
                     return Ok(());
                 }
                 env.rt.stack.truncate(height);
